@@ -8,7 +8,7 @@ one component, or assembling results into the wrong field) breaks the equivalenc
 """
 import re
 
-from . import facts
+from . import facts, alg
 
 EXPLANATION = (
     "Static dataflow lint over the type-checked HIR of every struct-of-arrays method (macro expansions for all colour types, Alpha, the hue "
@@ -392,7 +392,48 @@ def run(F, rep, tier="quick", extra=None, only=None):
                     ("iter", 32), ("iter_mut", 32)):
         rep.floor("bodies named %s" % m, per_method.get(m, 0), want)
     rep.note("per-method body counts: %s" % sorted(per_method.items()))
+    check_shadowing(F, rep)
     return {"level": "other", "explanation": EXPLANATION}
+
+
+SOA_METHODS = {"get", "get_mut", "set", "as_refs", "copied", "cloned", "with_capacity", "push", "pop", "clear", "drain"}
+
+
+def check_shadowing(F, rep):
+    """SOA-SHADOW: `Alpha` derefs to its colour, and the colour has collection methods of the same names (`clear`, `pop`, `drain`, `get`, ...).
+    If the Alpha-level impl does not apply to some `Alpha<X<Vec<T>>, Vec<A>>` the call still compiles, runs the colour's method and leaves the
+    alpha collection untouched (lengths diverge, later colours pair with the wrong alpha).  So every collection impl on Alpha must cover ALL
+    alpha collections: the alpha argument of its self type is built from an impl parameter that occurs nowhere in the colour argument and
+    carries no bound."""
+    n = 0
+    for im in F.impls:
+        if im.get("trait") is not None or not im["self_s"].startswith("alpha::alpha::Alpha<"):
+            continue
+        names = {i["n"] for i in im["items"]}
+        if not (names & SOA_METHODS):
+            continue
+        base, args = alg.split_type(im["self_s"])
+        if len(args) != 2:
+            continue
+        colour, alpha = args
+        n += 1
+        gens = im.get("generics") or []
+        m = re.fullmatch(r"(?:&(?:mut )?|std::vec::Vec<|\[)?\s*(\w+)\s*(?:>|; \w+\])?", alpha)
+        g = m.group(1) if m else None
+        problems = []
+        if g is None or g not in gens:
+            problems.append("the alpha collection `%s` is not built from an impl parameter" % alpha)
+        else:
+            if re.search(r"\b%s\b" % re.escape(g), colour):
+                problems.append("the alpha element parameter `%s` is shared with the colour `%s`: mixed element types fall through Deref to the colour's method" % (g, colour))
+            extra = [p_ for p_ in im.get("preds", []) if re.match(r"^%s\b" % re.escape(g), p_) and "Sized" not in p_]
+            if extra:
+                problems.append("the alpha parameter carries bounds %s: alpha collections outside them fall through Deref" % extra)
+        rep.ob("SOA-SHADOW", "%s {%s}" % (im["self_s"], ", ".join(sorted(names & SOA_METHODS))), not problems,
+               "; ".join(problems) if problems else "applies to every alpha collection of this shape (free parameter %s)" % g,
+               "%s:%s" % (F.S[im["loc"][0]], im["loc"][1]))
+    rep.floor("collection impls on Alpha", n, 104)
+
 
 
 def _ctor_sig(flow, e):
